@@ -9,6 +9,7 @@ Anything not understood becomes an opaque atom - never a guess.
 """
 from fractions import Fraction
 from poly import Poly, opaque, fresh, lit_fraction, DEFS, ATOM_TY, as_poly
+import tast
 
 
 class Buf:
@@ -969,7 +970,7 @@ class SymExec:
         t_arm, f_arm = (e["arms"][0], e["arms"][1]) if l0 else (e["arms"][1], e["arms"][0])
         key = "_as_if"
         if key not in e:
-            e[key] = {"k": "If", "cond": e["scrut"], "then": t_arm["body"], "else": f_arm["body"], "ty": e.get("ty"), "sp": e.get("sp"), "mx": e.get("mx")}
+            e[key] = {"k": "If", "cond": e["scrut"], "then": t_arm["body"], "else": f_arm["body"], "ty": e.get("ty"), "sp": e.get("sp"), "mx": e.get("mx"), "_of_id": id(e)}
         return e[key]
 
     def e_Match(self, e):
@@ -1193,7 +1194,7 @@ class SymExec:
                 if r is not None:
                     roots.add(r)
             for kk, vv in x.items():
-                if isinstance(vv, (dict, list)) and kk != "pat":
+                if isinstance(vv, (dict, list)) and kk != "pat" and not kk.startswith("_"):
                     walk(vv)
 
         walk(node)
@@ -1341,6 +1342,9 @@ class SymExec:
         if shape is not None:
             unit = self.shape_unit(shape)
             return self.for_component(e, unit, binder=lambda i: self.bind_iter_pat(pat, self.shape_value(shape, i)))
+        scan = self.scan_shape(e["iter"])
+        if scan is not None:
+            return self.for_scan(e, scan)
         # generic loop (zero or more iterations): element values are opaque -> whatever is computed from them is imprecise
         self.imprecise.append(("for-over-iterator", e))
         self.eval_iter_side_effects(e["iter"])
@@ -1365,6 +1369,82 @@ class SymExec:
             self.eval(e["body"])
         latch, breaks = self.run_loop_body(e, body, lid)
         # exit happens at a head visit: the generalised head is covered by join(pre, latch)
+        outs = list(latch) + list(breaks)
+        hd = self._loop_heads.get(id(e))
+        self.st = self.join_states(outs + [hd]) if hd is not None else self.join_states(outs)
+        return Poly.atom("unit")
+
+    # ---- sequential scans: `for x in coll.iter().skip(n).take_while(p).filter(q) { .. }`
+    SCAN_PASS = ("iter", "into_iter", "copied", "cloned", "by_ref", "peekable", "fuse")
+    SCAN_PRED = ("take_while", "filter", "skip_while")
+
+    def scan_shape(self, it, depth=0):
+        """(base collection expression, [predicate closures that hold for every element the body sees]) for an iterator
+        chain over an opaque (not element-tracked) collection; a local holding such a chain is looked through"""
+        if it is None or depth > 8:
+            return None
+        k = it.get("k")
+        if k in ("DropTemps", "Paren"):
+            return self.scan_shape(it["e"], depth + 1)
+        if k == "AddrOf":
+            return (it["e"], [])
+        if k == "Path" and it.get("res") == "local" and "std::" in (it.get("ty") or "") and ("iter::" in it["ty"] or "Iter<" in it["ty"]):
+            body = self.facts.bodies.get(self.fn_def, {}).get("body")
+            lets = tast.find(body, lambda z: z.get("k") == "Let" and z["pat"].get("k") == "PBind" and z["pat"].get("id") == it.get("id") and z.get("init") is not None) if body else []
+            if len(lets) == 1:
+                return self.scan_shape(lets[0]["init"], depth + 1)
+            return None
+        if k != "MethodCall":
+            return None
+        nm = it.get("name")
+        if nm in self.SCAN_PASS and not it["args"]:
+            if nm in ("iter", "into_iter") and it["recv"].get("k") != "MethodCall":
+                return (it["recv"], [])
+            return self.scan_shape(it["recv"], depth + 1) or ((it["recv"], []) if nm in ("iter", "into_iter") else None)
+        if nm == "skip" and len(it["args"]) == 1:
+            return self.scan_shape(it["recv"], depth + 1)
+        if nm in self.SCAN_PRED and len(it["args"]) == 1 and it["args"][0].get("k") == "Closure":
+            sub = self.scan_shape(it["recv"], depth + 1)
+            if sub is None:
+                return None
+            # skip_while's predicate says nothing about the elements that are seen
+            return (sub[0], sub[1] + ([it["args"][0]] if nm != "skip_while" else []))
+        return None
+
+    def for_scan(self, e, scan):
+        """the body runs for elements coll[k] (k unknown, increasing) that satisfy the chain's predicates; zero or more times"""
+        base_node, preds = scan
+        lid = e["id"]
+        try:
+            base = self.eval(base_node)
+        except Exception:
+            base = None
+        if not isinstance(base, Poly):
+            self.imprecise.append(("for-over-iterator", e))
+            base = self.fresh("coll")
+        self.eval_iter_side_effects(e["iter"])
+        pat = e["pat"]
+
+        def body():
+            kidx = self.fresh("k~scan")
+            el = opaque("idx", [self._p(base), kidx])
+            n_pc = len(self.pc)
+            for cl in preds:
+                ps = cl.get("params") or []
+                if len(ps) != 1:
+                    continue
+                self.bind_iter_pat(ps[0], el)
+                g = self.eval(cl["body"])
+                if isinstance(g, Poly) and self.st is not None:
+                    gnode = {"k": "If", "cond": cl["body"], "then": e["body"], "else": None, "sp": cl.get("sp"), "src": "ScanPredicate"}
+                    self.pc.append((gnode, "then", g))
+                    self.add_fact(g, True)
+                    self.log("if", node=gnode, cond=g, sel="then")
+            self.log("scan_elem", node=e, base=base, index=kidx, elem=el)
+            self.bind_iter_pat(pat, el)
+            self.eval(e["body"])
+            del self.pc[n_pc:]
+        latch, breaks = self.run_loop_body(e, body, lid)
         outs = list(latch) + list(breaks)
         hd = self._loop_heads.get(id(e))
         self.st = self.join_states(outs + [hd]) if hd is not None else self.join_states(outs)
@@ -1398,7 +1478,7 @@ class SymExec:
                     if mentions(x["i"], var_id):
                         found[0] = True
                         return
-                for v in x.values():
+                for v in (vv_ for kk_, vv_ in x.items() if not kk_.startswith("_")):
                     if isinstance(v, (dict, list)):
                         walk(v)
 
@@ -2010,7 +2090,7 @@ def mentions(e, var_id):
     if isinstance(e, dict):
         if e.get("k") == "Path" and e.get("res") == "local" and e.get("id") == var_id:
             return True
-        return any(mentions(v, var_id) for v in e.values() if isinstance(v, (dict, list)))
+        return any(mentions(v, var_id) for k_, v in e.items() if isinstance(v, (dict, list)) and not k_.startswith("_"))
     return False
 
 
